@@ -205,6 +205,10 @@ access_control_allow_origin_header = \
 
 def initialize_diff_worker():
     signal.signal(signal.SIGINT, signal.SIG_IGN)
+    # Workers are forked after the server has installed its own SIGTERM
+    # handler and inherit it. Put the default back, or a worker cannot be
+    # terminated (that is how the workers of a broken pool get stopped).
+    signal.signal(signal.SIGTERM, signal.SIG_DFL)
 
 
 class DiffServer(tornado.web.Application):
